@@ -371,11 +371,13 @@ fn c18_run(func: &str, replay: Option<Value>, seed: u64) -> Value {
     } } }
     let mut chg_rnd = 0;
     while chg_rnd < budget(120) {
-        let (h, change, hidden) = chg_random(&mut rng, 14);
+        // now and then a history spanning several 64-bit words of the index's reachability bit set, where the commits of
+        // one change are far apart
+        let (h, change, hidden) = if chg_rnd % 30 == 7 { let h = bulk_hist(&[130, 50, 15, 5], rng.below(1_000_000)); let n = h.n(); let c = (0..n).map(|i| if i > 80 && i % 5 == 2 { i - 75 } else { i }).collect(); (h, c, vec![n - 1, n - 2]) } else { chg_random(&mut rng, 14) };
         chg_rnd += 1;
         if let Some(r) = chg_check(&h, &change, &hidden, &[], "index") { return hit(chg_input("C18chg", &h, &change, &hidden, &[]), r, name); }
     }
-    none(&format!("scope exhausted: generation_number / IndexStats / resolve_change_id (all commits of a change id incl. hidden, visibility flags) on {chg} exhaustive + {chg_rnd} random histories with shared change ids and hidden commits; all {cnt} histories = every DAG with <= 4 non-root commits (root never a merge parent) x every split into transactions (for 4 commits: 4 and 3+1) (+ last two transactions concurrent), all pairs is_ancestor / all candidate subsets heads / all pairs common_ancestors, in memory and reloaded; then {rnd} seeded random histories with <= 12 commits (chains, octopus merges, stacked segments 6/3/1.., concurrent operations), seed {seed}"))
+    none(&format!("scope exhausted: generation_number / IndexStats / resolve_change_id (all commits of a change id incl. hidden, visibility flags) on {chg} exhaustive + {chg_rnd} random histories with shared change ids and hidden commits (4 of them with 200 commits); all {cnt} histories = every DAG with <= 4 non-root commits (root never a merge parent) x every split into transactions (for 4 commits: 4 and 3+1) (+ last two transactions concurrent), all pairs is_ancestor / all candidate subsets heads / all pairs common_ancestors, in memory and reloaded; then {rnd} seeded random histories with <= 12 commits (chains, octopus merges, stacked segments 6/3/1.., concurrent operations), seed {seed}"))
 }
 
 // ---------------------------------------------------------------------------------------------------------------------
@@ -904,7 +906,11 @@ fn chg_check(h: &Hist, change: &[usize], hidden: &[usize], within: &[usize], par
                 let exp = (n as u32, h.parents.iter().filter(|p| p.len() > 1).count() as u32, *gen_no.iter().max().unwrap(), (0..n).filter(|i| !h.parents.iter().any(|ps| ps.contains(i))).count() as u32, reps.len() as u32);
                 let got = (st.num_commits, st.num_merges, st.max_generation_number, st.num_heads, st.num_changes);
                 if got != exp { return Some(json!({"observed": format!("stats (num_commits, num_merges, max_generation_number, num_heads, num_changes) == {got:?} ({label})"), "required": format!("{exp:?} counted on the recorded graph")})); }
-                for (k, g) in reps.iter().enumerate() {
+                // the repo's change-id index caches which positions it has already classified as reachable, so the order of
+                // the queries matters: by newest member, newest first, on the in-memory repo; oldest first on the reloaded one
+                let mut order: Vec<(usize, usize)> = reps.iter().copied().enumerate().collect();
+                if *label == "in-memory" { order.sort_by_key(|(_, g)| std::cmp::Reverse((0..n).filter(|i| group[*i] == *g).max().unwrap())); }
+                for (k, g) in order.iter().map(|(k, g)| (*k, g)) {
                     let t = rp.resolve_change_id(b.commits[*g].change_id()).block_on().unwrap();
                     let Some(t) = t else { return Some(json!({"observed": format!("resolve_change_id(change of node {g}) == None ({label})"), "required": "the commits carrying that change id"})) };
                     if let Some(v) = check_targets(*g, &t, &format!("resolve_change_id(change of node {g} = {}..)", &chex[k][..8])) { return Some(v); }
